@@ -624,6 +624,10 @@ func c08Plan(c *Ctx, planNo int, T time.Duration) {
 				c.Res.Inconcl(fmt.Sprintf("a call from bind port 0 failed after %.0f ms (T=%v): its goroutine was kept from running when its deadline passed (host overloaded): not judged", float64(cl.end-cl.start)/1e6, T))
 				continue
 			}
+			if strings.Contains(cl.out.Err, "failed to write") && strings.Contains(cl.out.Err, "i/o timeout") {
+				c.Res.Inconcl("a call's deadline had passed before its request was written (its goroutine was kept from running): not judged: " + cl.out.Err)
+				continue
+			}
 			if !fixed && noEphemeralPort(cl.out.Err) {
 				c.Res.Inconcl("the kernel had no free ephemeral port for a call from bind port 0 (sockets in TIME_WAIT): " + cl.out.Err)
 				continue
